@@ -68,7 +68,15 @@ pub struct CaseResult {
 pub fn one_dump(sc: &Scenario, o: &DumpOpts, check_structure: bool, check_name_pairs: bool) -> CaseResult {
     let _g = dump::DUMP_LOCK.lock().unwrap_or_else(|e| e.into_inner());
     minidump_writer::verif_hooks::reset_array_index_counters();
-    let (out, _dest) = dump::dump(o);
+    // every third option set is dumped into a destination that is already LARGER than the dump
+    // will be (a pre-sized or recycled dump file), positioned at a non-zero offset: the image a
+    // reader finds there must be structurally sound as well
+    let presized = fnv(o.describe().as_bytes()) % 3 == 0;
+    let start: usize = if presized { 4096 } else { 0 };
+    let mut d = if presized { crate::dest::Dest::new(vec![0xEE; 6 << 20], start as u64, crate::dest::Mode::Plain, 1) } else { crate::dest::Dest::plain() };
+    let view = d.clone();
+    let out = dump::dump_into(o, &mut d);
+    let _dest = view.data();
     let (_, oor) = minidump_writer::verif_hooks::array_index_counters();
     drop(_g);
     let desc = fnv(format!("{}/{}/{}", o.describe(), sc.target.manifest.tids.len(), sc.b.spec.regions.len()).as_bytes());
@@ -79,6 +87,14 @@ pub fn one_dump(sc: &Scenario, o: &DumpOpts, check_structure: bool, check_name_p
             let mut errors = Vec::new();
             if check_structure {
                 errors.extend(im.errors.iter().cloned());
+                if presized {
+                    if let Some(slice) = _dest.get(start..start + img.len()) {
+                        let dim = image::decode(slice);
+                        errors.extend(dim.errors.iter().map(|(k, m)| (format!("{k} (image found in a pre-sized destination)"), m.clone())));
+                    } else {
+                        errors.push(("destination-too-short".into(), "the pre-sized destination is shorter than the returned image".into()));
+                    }
+                }
                 if im.stream_count != 18 || im.dir.len() != 18 {
                     errors.push(("stream-count".into(), format!("stream_count {} entries {}", im.stream_count, im.dir.len())));
                 }
